@@ -37,6 +37,12 @@ def shards(tier):
                             elif nf == 3 and (ack or sync or (mode != "none" and to == "zero")):
                                 continue   # three frames: without the version check (its branching x3 does not finish in the budget)
                             out.append({"nframes": nf, "mode": mode, "state": state, "sync": sync, "timeout": to, "ack": ack})
+    # a positive timeout, with a clock that does / does not use it up while queued frames of other types are being skipped
+    for tick in (0.001, 1.0):
+        for state in ("sub", "none"):
+            for mode in (("none", "fin") if tier == "quick" else ("none", "fin", "rst")):
+                for ack in ((0,) if tier == "quick" else (0, 1)):
+                    out.append({"nframes": 2 if tier == "quick" else 3, "mode": mode, "state": state, "sync": 0, "timeout": "pos", "tick": tick, "ack": ack})
     for s1, s2 in (("all", "none"), ("all", "sub"), ("sub", "none"), ("none", "sub"), ("sub", "all")):
         for mode in (("none",) if tier == "quick" else ("none", "fin", "rst")):
             out.append({"nframes": 2 if tier == "quick" else 3, "mode": mode, "state": s1, "state2": s2, "sync": 0, "timeout": "none", "ack": 0})
@@ -48,7 +54,7 @@ def obligations(tier):
     return [Obligation("read_path_faithful_filtered_resync", "harness.c08_read", "read", shards(tier), cond_timeout=600, path_timeout=60,
                        reach="read_reach", reach_shards=[{"nframes": 2, "mode": "none", "state": "all", "sync": 1, "timeout": "none", "ack": 0}],
                        encoded=ENC,
-                       bounds="streams of <= 2 (quick) / 3 (thorough) frames; client subscribed to all / to one type / to nothing, optionally changing between two reads; ack and sync_check on/off; blocking and non-blocking reads; peer FIN or RST at any byte offset",
+                       bounds="streams of <= 2 (quick) / 3 (thorough) frames; client subscribed to all / to one type / to nothing, optionally changing between two reads; ack and sync_check on/off; blocking, non-blocking and timed reads (timeout used up or not while skipping); peer FIN or RST at any byte offset",
                        symbolic="per frame: msg_type int32 (defined, defined with another size, undefined), declared size 0..65535, version uint32; the byte offset of FIN/RST")]
 
 
